@@ -7,7 +7,7 @@ use sux::utils::Sig;
 /// num_vertices * num_shards, inside the slice of its shard, equal to local_edge + shard offset; shard < num_shards is the
 /// value of the top shard_high_bits bits (what the signature store uses), sort_key < num_sort_keys.
 /// input: [impl (0 Shards, 1 NoShards<[u64;2]>, 2 NoShards<[u64;1]>, 3 FullSigs), n, seed]
-fn check<S: Sig + Copy + std::fmt::Debug, E: ShardEdge<S, 3> + Default>(n: usize, seed: u64, mk: impl Fn(&mut Rng) -> S, hi: impl Fn(S) -> u64) -> Result<(), String> {
+fn check<S: Sig + Copy + std::fmt::Debug, E: ShardEdge<S, 3> + Default>(tight: bool, n: usize, seed: u64, mk: impl Fn(&mut Rng) -> S, hi: impl Fn(S) -> u64) -> Result<(), String> {
     let mut e = E::default();
     e.set_up_shards(n, 0.001);
     let ns = e.num_shards();
@@ -17,6 +17,10 @@ fn check<S: Sig + Copy + std::fmt::Debug, E: ShardEdge<S, 3> + Default>(n: usize
     let ns = e.num_shards();
     if ns != 1usize << e.shard_high_bits() { return Err("num_shards != 2^shard_high_bits".into()); }
     if nv == 0 { return Err("num_vertices == 0".into()); }
+    // space (C11): 1.23 n vertices, 1.135 n from 100000 keys upward, up to the rounding to whole segments and the 1% shard imbalance (threshold 1.15 n / 64 vertices)
+    let tot = (nv as f64) * (ns as f64);
+    if tight && n >= 100_000 && tot > 1.15 * n as f64 { return Err(format!("{} vertices for {} keys: {:.4} n > 1.135 n", tot, n, tot / n as f64)); }
+    if n >= 1000 && tot > 1.23 * n as f64 + 64.0 { return Err(format!("{} vertices for {} keys: {:.4} n > 1.23 n", tot, n, tot / n as f64)); }
     let nk = e.num_sort_keys();
     let mut rng = Rng(seed | 1);
     for t in 0..400 {
@@ -45,10 +49,11 @@ fn case(inp: &[u64]) -> Result<(), String> {
     let s2 = |r: &mut Rng| -> [u64; 2] { match r.below(8) { 0 => [u64::MAX, u64::MAX], 1 => [0, 0], 2 => [u64::MAX, 0], 3 => [1 << 63, r.next()], _ => [r.next(), r.next()] } };
     let s1 = |r: &mut Rng| -> [u64; 1] { match r.below(8) { 0 => [u64::MAX], 1 => [0], _ => [r.next()] } };
     match imp {
-        0 => check::<[u64; 2], FuseLge3Shards>(n, seed, s2, |s| s[0]),
-        1 => check::<[u64; 2], FuseLge3NoShards>(n, seed, s2, |s| s[0]),
-        2 => check::<[u64; 1], FuseLge3NoShards>(n, seed, s1, |s| s[0]),
-        _ => check::<[u64; 2], FuseLge3FullSigs>(n, seed, s2, |s| s[0]),
+        // the 1.135 n bound from 100000 keys is the one of the default (sharded) edge; the unsharded one documents 1.23 n / its own c(n)
+        0 => check::<[u64; 2], FuseLge3Shards>(true, n, seed, s2, |s| s[0]),
+        1 => check::<[u64; 2], FuseLge3NoShards>(false, n, seed, s2, |s| s[0]),
+        2 => check::<[u64; 1], FuseLge3NoShards>(false, n, seed, s1, |s| s[0]),
+        _ => check::<[u64; 2], FuseLge3FullSigs>(true, n, seed, s2, |s| s[0]),
     }
 }
 
